@@ -1101,8 +1101,14 @@ impl SparqlDatabase {
                         this.resolve_query_term(&Self::clean_turtle_term(s_raw), &this.prefixes);
                     let predicate =
                         this.resolve_query_term(&Self::clean_turtle_term(p_raw), &this.prefixes);
-                    let object = this
-                        .resolve_query_term(&Self::clean_turtle_term(&object_part), &this.prefixes);
+                    // A literal keeps its value (unescaped, `value@lang`); prefix resolution
+                    // only applies to IRIs and prefixed names.
+                    let object = stored_literal_form(object_part.trim()).unwrap_or_else(|| {
+                        this.resolve_query_term(
+                            &Self::clean_turtle_term(&object_part),
+                            &this.prefixes,
+                        )
+                    });
 
                     // Emit the main triple
                     if subject.starts_with("<<") || object.starts_with("<<") {
